@@ -186,6 +186,11 @@ func (m *pcModel) genTx(st *overlay) *pcTx {
 		ActualFee: fu(uint64(t.Draw("pc.afee", 50))), ExecutionStatus: starknet.Succeeded, TransactionHash: &h,
 		Events: []*starknet.Event{}, L2ToL1Message: []*starknet.L2ToL1Message{},
 	}
+	if t.Draw("pc.reverted", 5) == 4 {
+		// a reverted transaction still changes the state (nonce, fee): its state diff stays as generated
+		x.rc.ExecutionStatus = starknet.Reverted
+		x.rc.RevertError = "reverted: scripted"
+	}
 	if t.Draw("pc.ev", 3) == 0 {
 		from := m.addrs[0]
 		x.rc.Events = append(x.rc.Events, &starknet.Event{From: &from, Keys: []felt.Felt{*fu(0xa)}, Data: []felt.Felt{*fu(m.nTx)}})
